@@ -186,8 +186,11 @@ pub enum Refk {
     InRange,
     InPlural,
     Two,
+    /// a range branch / a plural form made of the reference alone (it may reduce to nothing)
+    RangeBranchWhole,
+    PluralFormWhole,
 }
-pub const REFS: [Refk; 15] = [
+pub const REFS: [Refk; 17] = [
     Refk::Whole,
     Refk::Mid,
     Refk::InComp,
@@ -203,6 +206,8 @@ pub const REFS: [Refk; 15] = [
     Refk::InRange,
     Refk::InPlural,
     Refk::Two,
+    Refk::RangeBranchWhole,
+    Refk::PluralFormWhole,
 ];
 
 pub fn rbranch(v: Val, counts: Vec<CountSpec>) -> Branch {
@@ -260,6 +265,14 @@ pub fn ref_entries(name: &str, r: Refk, t: &str, u: &str, tag: &str) -> Vec<(Str
             (format!("{name}_other"), s(vec![text(&format!("[{tag}.pother]")), var("count")])),
         ],
         Refk::Two => one(s(vec![fk(t), text(" & "), fk(u)])),
+        Refk::RangeBranchWhole => one(Val::Range(RangeDecl {
+            ty: Some("u8".into()),
+            branches: vec![rbranch(s(vec![fk(t)]), vec![CountSpec::UInt(0)]), rbranch(s(vec![text(&format!("[{tag}.rfb]")), var("count")]), vec![])],
+        })),
+        Refk::PluralFormWhole => vec![
+            (format!("{name}_one"), s(vec![fk(t)])),
+            (format!("{name}_other"), s(vec![text(&format!("[{tag}.pother]")), var("count")])),
+        ],
     }
 }
 
